@@ -55,6 +55,29 @@ def make_function(spec):
     if fam == "trig":
         return (lambda x: np.sin(A @ np.asarray(x, float)) + c), \
                (lambda x: np.cos(A @ np.asarray(x, float))[:, None] * A)
+    if fam == "bowl":
+        # target 0 is linear with a unit gradient; the others are steep bowls centred at spec["centre"]:
+        # f_i = s_i * |x - centre|^2.  At the centre their Jacobian rows vanish, so a Newton step driven by target 0
+        # alone walks up the bowls (used for "no substep lowers the penalty although trial points are within tolerance")
+        n, m = spec["n"], spec["m"]
+        a = A[0] / np.linalg.norm(A[0])
+        centre = np.array(spec["centre"], dtype=float)
+        sv = np.array(spec["steepness"], dtype=float)
+
+        def f(x):
+            x = np.asarray(x, float)
+            out = np.empty(m)
+            out[0] = a @ x + c[0]
+            out[1:] = sv[:m - 1] * np.sum((x - centre) ** 2)
+            return out
+
+        def jac(x):
+            x = np.asarray(x, float)
+            J = np.empty((m, n))
+            J[0] = a
+            J[1:] = 2.0 * sv[:m - 1, None] * (x - centre)[None, :]
+            return J
+        return f, jac
     raise ValueError(fam)
 
 
